@@ -574,4 +574,68 @@ theorem fn_substring_xpath1_fails :
     Strings.fnSubstring2 (some [49, 50, 51, 52, 53]) (.string (.fin 2 1)) = .error .FORG0006 ∧
     FOStrings.substring2 [49, 50, 51, 52, 53] (.fin 2 1) = [50, 51, 52, 53] := ⟨rfl, by decide⟩
 
+
+/-! ## parser option `default_collation`, repeated evaluation -/
+
+open EPV.FOStrings (Collation) in
+/-- The 2-argument forms use the parser's default collation, the 3-argument forms the given one: every
+collation-sensitive function of the code is the spec function under `chosenCollation default arg`
+(so with `default_collation` = HTML ASCII case-insensitive, `substring-before(s,t)` folds case exactly
+like `contains(s,t)` does). -/
+theorem default_collation_used_when_absent (d : Collation) (c : Option Collation) (a b : Option Str) :
+    Strings.fnContains d c a b =
+      FOStrings.containsC (FOStrings.chosenCollation d c) (FOStrings.orEmpty a) (FOStrings.orEmpty b) ∧
+    Strings.fnStartsWith d c a b =
+      FOStrings.startsWithC (FOStrings.chosenCollation d c) (FOStrings.orEmpty a) (FOStrings.orEmpty b) ∧
+    Strings.fnEndsWith d c a b =
+      FOStrings.endsWithC (FOStrings.chosenCollation d c) (FOStrings.orEmpty a) (FOStrings.orEmpty b) ∧
+    Strings.fnSubstringBefore d c a b =
+      FOStrings.substringBeforeC (FOStrings.chosenCollation d c) (FOStrings.orEmpty a) (FOStrings.orEmpty b) ∧
+    Strings.fnSubstringAfter d c a b =
+      FOStrings.substringAfterC (FOStrings.chosenCollation d c) (FOStrings.orEmpty a) (FOStrings.orEmpty b) ∧
+    Strings.fnCompare d c a b = FOStrings.lift2 (FOStrings.compareC (FOStrings.chosenCollation d c)) a b := by
+  have hc : Strings.callCollation d c = FOStrings.chosenCollation d c := by cases c <;> rfl
+  have ha := arg_default_eq_spec a
+  have hb := arg_default_eq_spec b
+  obtain ⟨h1, h2, h3, h4, h5, h6⟩ :=
+    collation_functions_eq_spec (FOStrings.chosenCollation d c) (FOStrings.orEmpty a) (FOStrings.orEmpty b)
+  unfold Strings.fnContains Strings.fnStartsWith Strings.fnEndsWith Strings.fnSubstringBefore
+    Strings.fnSubstringAfter Strings.fnCompare
+  rw [hc, ha, hb]
+  refine ⟨h2, h3, h4, h5, h6, ?_⟩
+  exact none_if_either_none_eq_spec _ _ (fun x y => Strings.compareC_eq_spec _ x y) a b
+
+open EPV.FOStrings (Collation) in
+/-- `before ++ m ++ after = s` holds under whatever collation the call uses — default or explicit —
+because `contains`, `substring-before` and `substring-after` choose it the same way. -/
+theorem before_after_concat_default (d : Collation) (c : Option Collation) (s t : Str)
+    (h : Strings.fnContains d c (some s) (some t) = true) :
+    ∃ m, m.length = t.length ∧
+      Strings.strxfrm (Strings.callCollation d c) m = Strings.strxfrm (Strings.callCollation d c) t ∧
+      Strings.fnSubstringBefore d c (some s) (some t) ++ m ++ Strings.fnSubstringAfter d c (some s) (some t) = s :=
+  Strings.before_after_concat_C (Strings.callCollation d c) s t h
+
+/-- A history of evaluations of one parsed call is the list of the single-call results, and leaves no
+state behind: the modelled evaluate methods write nothing (the harness checks the real token the
+same way: one parsed expression re-evaluated with other variables and context items, `for` products). -/
+theorem history_eq_map {α β : Type} (f : α → β) (calls : List α) :
+    Strings.evalHistory f () calls = ((), calls.map f) := by
+  induction calls with
+  | nil => rfl
+  | cons a as ih => simp [Strings.evalHistory, ih]
+
+/-- `for $x in X, $y in Y return f($x,$y)` with a modelled function is the product of single calls;
+in particular results do not depend on what was evaluated before (`translate` with the same map
+string and another trans string included). -/
+theorem for_product_eq_single_calls (xs ys zs : List Str) :
+    FOStrings.forProduct3 Strings.translate xs ys zs =
+      xs.flatMap (fun x => ys.flatMap fun y => zs.map fun z => FOStrings.translate x y z) ∧
+    FOStrings.forProduct2 Strings.substringBefore xs ys =
+      xs.flatMap (fun x => ys.map fun y => FOStrings.substringBefore x y) := by
+  constructor
+  · unfold FOStrings.forProduct3
+    simp only [translate_eq_spec]
+  · unfold FOStrings.forProduct2
+    simp only [substring_before_eq_spec]
+
 end EPV.C09
